@@ -64,6 +64,33 @@ def already_materialized(rel):
         return False
 
 
+STATS = {"content_compared": 0}
+
+
+def content_kept(pin, pout, rin, rout, w):
+    """A transfer / materialization call returns a relation with the content of its input: same columns, and — executed
+    from fresh builds of the two programs, each through a real Processor on SQLite — the same rows as far as the order of
+    the input is determined.  -> problem text, None (compared, fine) or False (not comparable)."""
+    import ordering
+    if set(rout.columns) != set(rin.columns):
+        return f"columns changed from {sorted(map(str, rin.columns))} to {sorted(map(str, rout.columns))}"
+    try:
+        w1, w2 = mp.World(), mp.World()
+        a, _p, _t = mp.execute(w1, mp.build_impl(pin, w1))
+        b, _p, _t = mp.execute(w2, mp.build_impl(pout, w2))
+        st = max(ordering.state(enc.dtree(rin, w.reg)), ordering.state(enc.dtree(rout, w.reg)))
+    except Exception:  # noqa: BLE001 — refusals and execution failures are C08/C14's concern
+        return False
+    key = lambda r: sorted((str(k), v) for k, v in r.items())  # noqa: E731
+    if st == ordering.EXACT and a != b:
+        return f"rows changed: {a} -> {b}"
+    if st <= ordering.BAG and sorted(map(key, a)) != sorted(map(key, b)):
+        return f"rows changed (as a multiset): {a} -> {b}"
+    if st <= ordering.COUNT and len(a) != len(b):
+        return f"row count changed: {len(a)} -> {len(b)}"
+    return None
+
+
 def steps(p):
     """Every factory call of the program with the programs of its inputs."""
     k = p[0]
@@ -126,6 +153,11 @@ def make_cases(rng, tier):
                 if already_materialized(src) and sum(isinstance(x, dr.Materialization) for x in nodes(rout)) != \
                         sum(isinstance(x, dr.Materialization) for x in nodes(src)):
                     bad.append({"program": jsonable(out), "problem": ["materializing a locked relation added a materialization"]})
+            if out[0] in ("mat", "xfer"):
+                why = content_kept(ins[0], out, rin[0], rout, w)
+                STATS["content_compared"] += why is not False
+                if why:
+                    bad.append({"program": jsonable(out), "problem": [why]})
             if out[0] == "xfer" and rout.engine is not w.engine(out[1]):
                 bad.append({"program": jsonable(out), "problem": ["transfer result is not in the requested engine"]})
             if out[0] in ("xfer", "un", "item", "mat"):
@@ -160,6 +192,7 @@ def run(ctx):
                 "shared between a call's input and output): locked nodes are compared by Python identity, materialization "
                 "counts and result engines are checked, and the structural form of the same claim is evaluated in Coq on the "
                 "real trees; non-trivial = a unary/join call over an input with at least two locked nodes",
+        "transfer_and_materialize_calls_whose_content_was_compared": STATS["content_compared"],
         "traces_validated_against_impl": summ["evaluated"], "judgement": summ, "python_side_problems": len(bad),
         "samples": [cases[0]["json"], cases[-1]["json"]],
     })
